@@ -13,12 +13,12 @@ pub use self::abstraction::{DiffableStr, DiffableStrRef};
 #[cfg(feature = "inline")]
 pub use self::inline::InlineChange;
 
-#[cfg(all(similar_verif, feature = "inline"))]
+#[cfg(all(similar_verif, not(similar_verif_no_internals), feature = "inline"))]
 pub use self::inline::verif_inline_internals;
 
 /// Verification hooks (only with `--cfg similar_verif`): the ratio pre-filters
 /// of [`get_close_matches`].
-#[cfg(similar_verif)]
+#[cfg(all(similar_verif, not(similar_verif_no_internals)))]
 #[allow(missing_docs)]
 pub mod verif_text_internals {
     pub use super::utils::{upper_seq_ratio, QuickSeqRatio};
